@@ -59,8 +59,11 @@ Expected(ep, f) == IF f.kind = "code" THEN CodeClass(f.code) ELSE MalformedClass
 (* ---- bad requests: 4xx before any backend call ---- *)
 \* badEscape / semicolonSeparator: a query string that is malformed as a whole (an invalid %-escape, a ';'
 \* separator) although the required parameters it also carries are well formed
+\* jsonThenGarbage / jsonTwice: a body that BEGINS with a complete, admissible add-chain object followed by other
+\* non-blank bytes is malformed as a whole (a streaming decoder that stops after the first value would admit it)
 ParamClasses(ep) ==
-  CASE ep \in {"add-chain", "add-pre-chain"} -> {"wrongMethod", "notJSON", "emptyObject", "emptyChain", "chainNotBase64", "garbageCert", "trailingJunkCert"}
+  CASE ep \in {"add-chain", "add-pre-chain"} -> {"wrongMethod", "notJSON", "emptyObject", "emptyChain", "chainNotBase64", "garbageCert", "trailingJunkCert",
+                                                     "emptyBody", "truncatedJSON", "jsonThenGarbage", "jsonTwice", "nullChain", "chainWrongType", "chainElementNumber"}
     [] ep = "get-sth" -> {"wrongMethod", "badEscape", "semicolonSeparator"}
     [] ep = "get-roots" -> {"wrongMethod", "badEscape", "semicolonSeparator"}
     [] ep = "get-sth-consistency" -> {"wrongMethod", "badEscape", "semicolonSeparator", "missingFirst", "missingSecond", "emptyFirst", "negativeFirst", "negativeSecond",
